@@ -610,7 +610,79 @@ fn heap_pressure_case(seed: u64, idx: u64, rep: &mut Report) {
     }
 }
 
+/// Callee heap survives the caller's later allocations: A allocates 64 bytes, fills them
+/// and returns them with RETD; the caller then allocates `extra` bytes itself (from one byte
+/// to several MiB: the heap buffer is re-allocated, by far more than a factor of two for
+/// the large ones) and reads A's block through `$ret`.
+fn heap_survival_case(seed: u64, idx: u64, rep: &mut Report) {
+    use crate::world::{
+        ScriptSpec,
+        run_plain,
+    };
+    use fuel_asm::{
+        GTFArgs,
+        op,
+    };
+    let mut rng = Rng::derive(seed ^ (0x34b << 32), 0, idx);
+    let mut world = World::new(fuel_tx::ConsensusParameters::standard(), 0);
+    let mut code_a = vec![op::movi(0x10, 64), op::aloc(0x10), op::not(0x13, RegId::ZERO)];
+    for w in 0..8u16 {
+        code_a.push(op::sw(RegId::HP, 0x13, w));
+    }
+    code_a.push(op::retd(RegId::HP, 0x10));
+    let id_a = world.install_contract(code_a.into_iter().collect(), fuel_types::Salt::new(rng.arr()), vec![]);
+    let mut data = id_a.as_ref().to_vec();
+    data.extend_from_slice(&[0u8; 16]);
+    let extras: [(u32, u8); 12] = [(1, 0), (8, 0), (100, 0), (300, 0), (4096, 0), (70_000, 0), (262_143, 0), (1, 20), (3, 20), (5, 20), (1, 24), (33, 20)];
+    let (base, shift) = extras[(idx % 12) as usize];
+    let jitter = if shift == 0 { 0 } else { rng.below(4096) as u32 };
+    let mut script = vec![
+        op::gtf_args(0x14, RegId::ZERO, GTFArgs::ScriptData),
+        op::call(0x14, RegId::ZERO, 0x14, RegId::CGAS),
+        op::move_(0x15, RegId::RET),
+        op::move_(0x16, RegId::RETL),
+        op::movi(0x17, base),
+    ];
+    if shift > 0 {
+        script.push(op::slli(0x17, 0x17, shift as u16));
+        script.push(op::addi(0x17, 0x17, (jitter & 0xfff) as u16));
+    }
+    script.extend([op::aloc(0x17), op::logd(RegId::ZERO, RegId::ZERO, 0x15, 0x16), op::ret(RegId::ONE)]);
+    let spec = ScriptSpec { script: script.into_iter().collect(), data, gas_limit: 5_000_000, max_fee: 0, coins: vec![(0, 0, 1000)], contracts: vec![id_a], ..Default::default() };
+    let replay = json!({"kind": "heap-survival", "seed": seed, "index": idx, "caller_allocation": ((base as u64) << shift) + (jitter & 0xfff) as u64});
+    let Ok(ready) = spec.ready(&world, idx) else {
+        rep.count("generated_tx_rejected_by_checks");
+        return;
+    };
+    let (out, _vm) = run_plain(&world, ready);
+    rep.eval();
+    rep.count("heap_survival_cases");
+    let logged: Option<Vec<u8>> = out.receipts.iter().find_map(|r| match r {
+        Receipt::LogData { data, .. } => data.clone().map(|d| d.to_vec()),
+        _ => None,
+    });
+    rep.class(format!("heap-survival|caller allocates {}", if shift == 0 { format!("{base} B") } else { format!("{base} << {shift} B") }));
+    let ok = matches!(out.state, Ok(fuel_vm::state::ProgramState::Return(1))) && logged.as_deref() == Some(&[0xffu8; 64][..]);
+    if ok {
+        rep.count("heap_survival_ok");
+    } else {
+        rep.violation(
+            "C34|heap survival|heap bytes returned by a callee are not what it wrote after the caller allocated memory itself",
+            format!("caller allocation {} bytes: state {:?}, the caller reads {}", ((base as u64) << shift) + (jitter & 0xfff) as u64, out.state, logged.map(|d| hx(&d)).unwrap_or_else(|| "nothing".into())),
+            || replay.clone(),
+        );
+    }
+}
+
 pub fn run(cfg: &Cfg) -> Report {
+    if let Some(r) = &cfg.replay {
+        let c = r.get("case").unwrap_or(r);
+        if c["kind"].as_str() == Some("heap-survival") {
+            let mut rep = Report::new();
+            heap_survival_case(c["seed"].as_u64().unwrap_or(0), c["index"].as_u64().unwrap_or(0), &mut rep);
+            return rep;
+        }
+    }
     if let Some(r) = &cfg.replay {
         let c = r.get("case").unwrap_or(r);
         if c["kind"].as_str() == Some("heap-pressure") {
@@ -628,6 +700,7 @@ pub fn run(cfg: &Cfg) -> Report {
         let mut cw = w.clone();
         cw.call = 14;
         cw.storage = 10;
+        cw.ldc = 3;
         match idx % 4 {
             0 => {
                 // chain: contract k calls k-1 first thing (nesting up to ~45 frames)
@@ -661,13 +734,14 @@ pub fn run(cfg: &Cfg) -> Report {
             let mut i = w as u64;
             while i < n {
                 heap_pressure_case(cfg.seed, i, &mut r);
+                heap_survival_case(cfg.seed, i, &mut r);
                 i += cfg.threads.max(1) as u64;
             }
             r
         });
         rep.merge(hp);
     }
-    rep.rule = "generated call trees (chains of up to ~45 contracts, counted self-recursion, random calls with forwarded coins/gas, callee ALOC/storage/transfers, RET and RETD of any length): at every completed CALL the callee's registers ($fp,$ssp,$sp,$is,$pc,$bal,$flag,$cgas) and the 600-byte frame + code in memory vs the documented layout and the world's contract code; at the matching RET/RETD the caller's registers vs the image taken at the CALL (all but $cgas,$ggas,$ret,$retl,$hp; $pc = call pc + 4), $ret/$retl, caller stack bytes, call depth (hook and frame chain in memory), callee heap still readable, RETD data = receipt data; heap pressure: a callee allocates all memory but a gap of (next call's frame + delta), delta in -4000..4000 around 0: the next call is refused with MemoryGrowthOverlap iff delta < 0, otherwise completes and the first callee's heap bytes are unchanged. class = (depth bucket, return kind, callee side effects) and (entry, depth bucket, coins, caller kind)".into();
+    rep.rule = "generated call trees (chains of up to ~45 contracts, counted self-recursion, random calls with forwarded coins/gas, callee ALOC/storage/transfers, RET and RETD of any length): at every completed CALL the callee's registers ($fp,$ssp,$sp,$is,$pc,$bal,$flag,$cgas) and the 600-byte frame + code in memory vs the documented layout and the world's contract code; at the matching RET/RETD the caller's registers vs the image taken at the CALL (all but $cgas,$ggas,$ret,$retl,$hp; $pc = call pc + 4), $ret/$retl, caller stack bytes, call depth (hook and frame chain in memory), callee heap still readable, RETD data = receipt data; heap pressure: a callee allocates all memory but a gap of (next call's frame + delta), delta in -4000..4000 around 0: the next call is refused with MemoryGrowthOverlap iff delta < 0, otherwise completes and the first callee's heap bytes are unchanged; heap survival: 64 bytes returned by a callee are read back unchanged after the caller allocated 1 B .. 33 MiB itself. class = (depth bucket, return kind, callee side effects) and (entry, depth bucket, coins, caller kind)".into();
     rep.assume("call frame layout: to 32 | asset id 32 | 64 registers 512 | padded code size 8 | a 8 | b 8, code follows zero padded to 8; which $pc/$cgas/$ggas values are saved in the frame is not judged");
     rep.assume("a callee that reverts or panics ends the whole transaction: nothing to compare");
     rep.note("registers passed through to the callee ($hp, general purpose registers, $of/$err/$ret/$retl) are counted, not judged; a return whose following fetch ends the program is counted, not judged");
@@ -678,6 +752,7 @@ pub fn run(cfg: &Cfg) -> Report {
         rep.gate("returns_checked_RETD", rep.counter("returns_checked_RETD"), 500);
         rep.gate("heap_reads_of_memory_allocated_by_a_returned_callee", rep.counter("heap_reads_of_memory_allocated_by_a_returned_callee"), 10);
         rep.gate("max_depth_reached", rep.counter("max_depth_reached"), 3);
+        rep.gate("heap_survival_ok", rep.counter("heap_survival_ok"), 24);
         rep.gate("heap_pressure_fitting_calls_ok", rep.counter("heap_pressure_fitting_calls_ok"), 10);
         rep.gate("heap_pressure_overlapping_calls_refused", rep.counter("heap_pressure_overlapping_calls_refused"), 10);
     }
